@@ -351,6 +351,45 @@ func c03(c *Ctx) {
 				c.requireCross(site(dels[0])+" after-label-cleanup", dels[0], okEdges(u, "IgnoreNotFound"), "ok-or-NotFound(Update)")
 			}
 		}
+		// no success before observed was scanned, unless observed is empty
+		{
+			scans := map[*ssa.BasicBlock]bool{}
+			for _, b := range gc.Blocks {
+				for _, in := range b.Instrs {
+					if rg, ok := in.(*ssa.Range); ok && (rg.X == ssa.Value(observed) || flow.Default.Any(rg.X, func(x ssa.Value) bool { return x == ssa.Value(observed) })) {
+						scans[b] = true
+					}
+				}
+			}
+			var empty []cfgx.Edge
+			for _, lc := range cfgx.LenCmps(gc) {
+				if lc.Of != ssa.Value(observed) {
+					continue
+				}
+				tr, fa := lc.Edges()
+				op, k := lc.Op, lc.Const
+				if lc.Swap {
+					op = map[token.Token]token.Token{token.LSS: token.GTR, token.GTR: token.LSS, token.LEQ: token.GEQ, token.GEQ: token.LEQ, token.EQL: token.EQL, token.NEQ: token.NEQ}[op]
+				}
+				switch {
+				case op == token.EQL && k == 0, op == token.LSS && k == 1, op == token.LEQ && k == 0:
+					empty = append(empty, tr...)
+				case op == token.NEQ && k == 0, op == token.GTR && k == 0, op == token.GEQ && k == 1:
+					empty = append(empty, fa...)
+				}
+			}
+			var early *ssa.Return
+			for b := range cfgx.ReachFromEntry(gc, scans, empty) {
+				if r, ok := b.Instrs[len(b.Instrs)-1].(*ssa.Return); ok && !scans[b] && nonNilError(r) == "nil" {
+					early = r
+				}
+			}
+			p := gc.Pos()
+			if early != nil {
+				p = early.Pos()
+			}
+			c.R.Check(len(scans) > 0 && early == nil, load.FuncName(gc)+": no success before the scan", c.pos(p), "every success return lies behind the scan of observed (or observed is empty)", "garbage collection can report success without looking at the observed resources at all, although observed is not empty")
+		}
 		// owner check
 		fcs := foreignControllerTests(gc)
 		if len(fcs) != 1 {
